@@ -146,11 +146,13 @@ PROPS["C09"] = {
 }
 PROPS["C10"] = {
     "technique": 'Lean 4 permutation-invariance theorems (matcher, total alert order, result slots) + regenerated facts tying the sort key + repeated runs of the real binary',
-    "lean_modules": ["SfwModel.Props.C10", "SfwModel.Props.C10Facts", "SfwModel.Props.C09"],
+    "lean_modules": ["SfwModel.Props.C10", "SfwModel.Props.C10Facts", "SfwModel.Props.C10Topo", "SfwModel.Props.C09"],
     "suites": [{"name": "repeat", "timeout": 3000}, {"name": "diffreport", "quick": 6, "thorough": 60, "timeout": 3000}],
     "needs_sfw": True,
     "required_theorems": ["C10_match_perm_invariant", "C10_scan_sort_key_is_modelled", "C10_matcher_sorts_names", "C10_alerts_order_schedule_invariant", "C10_alerts_sorted",
-                          "C10_sort_perm_invariant", "C10_slots_schedule_invariant", "C10_slot_content", "C10_old_key_not_total"],
+                          "C10_sort_perm_invariant", "C10_slots_schedule_invariant", "C10_slot_content", "C10_old_key_not_total",
+                          "C10_topology_hash_enumeration_invariant", "C10_topology_fingerprint_enumeration_invariant",
+                          "C10_topology_fingerprint_needs_the_sort", "C10_topology_fingerprint_truncates"],
     "level_text": "Kernel-checked, each for EVERY arrival order: the diff matcher's outcome (pairs, similarities, added, removed) is invariant under every permutation of the old and of the new function list (the Go maps' iteration order) for lists with distinct short names; scan's alert order (model of the less-function of RunScanLogic: a strict total order on the alert key, proved irreflexive/trichotomous/transitive) gives the same sorted list for any two permutations of the alerts, whereas the pre-fix key provably does not; check's index-addressed result slots end in the same array whatever order the workers finish in. Tie: the model is compared with the real ComputeDiff on generated pairs with tied candidates; and the real binary (built from the working tree) is run repeatedly at GOMAXPROCS 1, 2 and 16 on generated trees shaped to tie (identical shapes, identical short names across packages, a database indexed from the tree itself) for check, scan (Pebble, Pebble --exact, JSON) and diff; every stdout must be byte-identical.",
     "level_note": "PARTIAL: scheduling of the per-file goroutines and Go map iteration order are sampled by repetition (3 x 3 runs quick, 12 x 3 on three trees thorough), not enumerated; the theorem covers the matcher, the alert-sort and slot theorems cover scan/check ordering. Trusted: Lean kernel, go/packages load order.",
     "partial": "goroutine schedules and map orders are sampled by repeated runs",
